@@ -122,6 +122,32 @@ def judge_result(ctx, sch, op, old_tk, new_doc, frm, to, slice_tk, det, mech, is
     return True
 
 
+_FLAGS = {"frontier_mismatch": False, "armed": False}
+
+
+def arm_fitter_probe():
+    """Observe (not alter) one internal fact the known-findings classifier needs: did the
+    fitter, while closing, re-open a node after the range on a frontier level whose match
+    does not accept that node type?"""
+    if _FLAGS["armed"]:
+        return
+    import prosemirror.transform.replace as R
+
+    orig = R.Fitter.open_frontier_node
+
+    def open_frontier_node(self, type_, attrs=None, content=None):
+        try:
+            top = self.frontier[self.depth]
+            if top.match is None or top.match.match_type(type_) is None:
+                _FLAGS["frontier_mismatch"] = True
+        except Exception:
+            pass
+        return orig(self, type_, attrs, content)
+
+    R.Fitter.open_frontier_node = open_frontier_node
+    _FLAGS["armed"] = True
+
+
 def case(ctx, rnd, i):
     from prosemirror.model import Fragment, Slice
     from prosemirror.transform import ReplaceAroundStep, ReplaceStep, Transform, replace_step
@@ -219,6 +245,8 @@ def case(ctx, rnd, i):
         mech = {"op": opname, "schema_class": "totality" if sch.totality else sch.cls, "schema": sid,
                 "slice_node_open_both_sides_non_prefix": slice_fact}
         tr = Transform(d)
+        arm_fitter_probe()
+        _FLAGS["frontier_mismatch"] = False
         lim = opwork.line_budget(n, len(slice_tk))
         try:
             if opname == "replace_step":
@@ -240,12 +268,14 @@ def case(ctx, rnd, i):
                               {**det, "trace": traceback.format_exc()[-1200:]}, {**mech, "exc": type(e).__name__, "msg": _msgclass(e)})
             else:
                 ctx.count("ops_raised_outside_totality_class:%s" % ("internal" if internal else "reported"))
+                ctx.count("ops_raised_in_schema:%s" % sid)
                 ctx.cover([sid, opname, "raised", type(e).__name__])
             continue
         ctx.count("ops_returned")
         kinds = sorted({type(x).__name__ for x in tr.steps})
         noop = not tr.steps
-        mech2 = {**mech, "noop": noop and tr.doc is d, "flexible": sch.id in schemas.FLEXIBLE, "steps": kinds}
+        mech2 = {**mech, "noop": noop and tr.doc is d, "flexible": sch.id in schemas.FLEXIBLE, "steps": kinds,
+                 "fitter_reopened_node_on_non_accepting_frontier": _FLAGS["frontier_mismatch"]}
         ok = judge_result(ctx, sch, opname, tk, tr.doc, a, b, slice_tk, det, mech2, is_delete)
         if ok:
             expanded = any((getattr(x, "from_", a) < a or getattr(x, "to", b) > b) for x in tr.steps)
